@@ -191,6 +191,8 @@ def judge(chk, pid, md, findings_d11):
                         chk.violation("the graph has %d tuple-to-userset edges, the rewrites ask for %d (one per parent type per occurrence)" % (got, want), dict(replay, real_edges=re_))
         if not obs["model_unchanged"]:
             chk.violation("Build modified the model it was given", replay)
+        if obs.get("shared_structure_differs"):
+            chk.violation("the same model with structurally equal rewrite subtrees shared (one message value in several places) gives a different graph structure", replay)
         if obs.get("api_structure_differs"):
             chk.violation("the same model written API-style (metadata only for directly assignable relations) gives a different graph structure", replay)
         return
